@@ -20,7 +20,18 @@ import sys
 repo, corpus_path, out_path = sys.argv[1], sys.argv[2], sys.argv[3]
 sys.path.insert(0, repo)
 PY2 = sys.version_info[0] == 2
+import decimal  # noqa: E402
+import warnings  # noqa: E402
 
+
+def process_globals():
+    c = decimal.getcontext()
+    return {"sys.path": list(sys.path), "decimal": [c.prec, str(c.rounding), sorted(str(t.__name__) for t, f in c.traps.items() if f)],
+            "warnings.filters": len(warnings.filters), "cwd": os.getcwd(), "stdio": [id(sys.stdin), id(sys.stdout), id(sys.stderr)],
+            "recursionlimit": sys.getrecursionlimit(), "locale": __import__("locale").setlocale(0, None)}
+
+
+GLOBALS_BEFORE = process_globals()
 import cvss  # noqa: E402
 from cvss import CVSS2, CVSS3, CVSS4, CVSSError  # noqa: E402
 from cvss import cvss_calculator, interactive  # noqa: E402
@@ -181,6 +192,9 @@ def ask(version, allm, answers):
         sys.stdin, sys.stdout = old
     r["out"] = cap.getvalue()
     r["reads"] = fin.reads
+    # what THIS interpreter's own text strip() makes of the answers (not a library result: it lets the monitor recognise
+    # a difference explained by the white-space set of the interpreter's Unicode database alone -- finding F10)
+    r["strip"] = [txt(a).strip() for a in answers]
     return r
 
 
@@ -229,5 +243,10 @@ R["rh"] = [with_logging(i, also_native, rh, v, s) for i, (v, s) in enumerate(C["
 R["text"] = [with_logging(i, also_native, text, t) for i, t in enumerate(C["text"])]
 R["ask"] = [ask(v, a, ans) for v, a, ans in C["ask"]]
 R["cli"] = [cli(argv, ans) for argv, ans in C["cli"]]
+# process-global state the library has no business changing, before `import cvss` and after everything above
+# (importing every module, every entry point used): the names of what changed, [] expected on every interpreter
+_after = process_globals()
+R["globals"] = [{"changed": sorted(k for k in _after if _after[k] != GLOBALS_BEFORE[k]),
+                 "sys.path_added": [txt(x) for x in _after["sys.path"] if x not in GLOBALS_BEFORE["sys.path"]]}]
 with io.open(out_path, "w", encoding="utf-8") as f:
     f.write(txt(json.dumps(R, ensure_ascii=True, sort_keys=True)))
